@@ -130,6 +130,7 @@ def main():
         save_meta(d, meta)
         print(json.dumps(res, indent=1))
         sh("./check build", cwd=VERIF)
+        sh("git checkout -- evidence", cwd=VERIF)
     elif cmd == "all":
         root = os.path.join(VERIF, "seeded")
         for name in sorted(os.listdir(root)):
@@ -146,6 +147,8 @@ def main():
                   {k: v["verdict"] for k, v in meta["detection"].items()})
             sys.stdout.flush()
         sh("./check build", cwd=VERIF)
+        # evidence files were rewritten by runs against patched trees: put the committed ones back
+        sh("git checkout -- evidence", cwd=VERIF)
     return 0
 
 
